@@ -39,7 +39,8 @@ PROBES = ["interned_default_returned", "init_returned_itself", "incompatible_ini
           "ror_used", "equal_sets_hash_equal", "negative_namespace_definition",
           "last_namespace_wins", "inheriting_namespace_subclass",
           "namespace_with_converting_constructor", "plain_mixin_among_bases",
-          "render_args_subclass", "explicit_none_before_namespaces"]
+          "render_args_subclass", "explicit_none_before_namespaces",
+          "unknown_field_is_another_class_field", "unknown_field_named_like_an_attribute"]
 COMPONENTS = {
     "real": ["RenderArgs (__new__/__init__ interning, update, convert, __eq__, __hash__, "
              "__contains__, __getitem__)", "ArgsNamespace (__or__, __ror__, __pos__, update, "
@@ -212,6 +213,20 @@ def run(ch, ctx, fault=None):
             except Exception as e:
                 return ("exc", type(e).__name__)
 
+        def unknown_name(i):
+            """a keyword that is not a field of class i's namespace: made up, the name of
+            something else the namespace object has, or a field of another class"""
+            own = set(classes[i]["fields"] or ())
+            others = sorted({n for c in classes for n in (c["fields"] or ()) if n not in own})
+            pool = ["zzz", "nope", "as_dict", "update", "get_fields", "get_render_cls",
+                    "to_render_args", "_FIELDS", "_RENDER_CLS", "__class__"] + others
+            name = ch.pick("unknown_name", pool)
+            if name in others:
+                ctx.probe("unknown_field_is_another_class_field")
+            elif name not in ("zzz", "nope"):
+                ctx.probe("unknown_field_named_like_an_attribute")
+            return name
+
         def more_derived(a, b):
             if is_ancestor_or_self(b, a):
                 return a
@@ -268,10 +283,12 @@ def run(ch, ctx, fault=None):
                 upd = {n: ch.pick("uval", (0, 1, 2, 3, 4, None)) for n in names
                        if ch.bool("give", 0.5)}
                 if ch.bool("unknown", 0.1):
-                    res = attempt(lambda: obj.update(zzz=1), op)
+                    bad = dict(upd)
+                    bad[unknown_name(i)] = 1
+                    res = attempt(lambda: obj.update(**bad), op)
                     check(res == ("exc", "UnknownArgsFieldError"), "unknown_field_accepted",
-                          {"res": repr(res)}, "ns_update")
-                    desc = "ns.update(zzz=1) rejected"
+                          {"res": repr(res), "update": bad, "fields": names}, "ns_update")
+                    desc = "ns.update(%s) rejected" % bad
                 else:
                     new = obj.update(**upd)
                     m2 = dict(m)
@@ -350,6 +367,13 @@ def run(ch, ctx, fault=None):
                 else:
                     check(res[0] == "ok", "valid_update_rejected", {"op": desc, "got": repr(res)},
                           "update_kw")
+                    if ch.bool("unknown_kw", 0.15):
+                        bad = dict(upd)
+                        bad[unknown_name(j)] = 1
+                        res2 = attempt(lambda: obj.update(classes[j]["cls"], **bad), op)
+                        check(res2 == ("exc", "UnknownArgsFieldError"), "unknown_field_accepted",
+                              {"op": "RenderArgs.update(%s, %s)" % (classes[j]["name"], bad),
+                               "got": repr(res2)}, "update_kw")
                     m2 = {a: dict(b) for a, b in m.items()}
                     m2[j].update(upd)
                     add_ra(res[1], i, m2, desc)
@@ -527,7 +551,7 @@ def run(ch, ctx, fault=None):
                             kwv = {names_[ch.int("dup", 0, npos - 1)]: 1}
                             want = ("exc", "TypeError")
                         else:
-                            kwv = {"nope": 1}
+                            kwv = {unknown_name(i): 1}
                             want = ("exc", "UnknownArgsFieldError")
                         res = attempt(lambda: classes[i]["Args"](*posv, **kwv), op)
                         check(res == want, "unknown_field_accepted",
